@@ -27,8 +27,9 @@ func main() {
 	fw.Main(fw.Check{
 		ID: "C12", Level: "exploration",
 		Rule: "part a: one case = one frame tree (kind x outcome x effect per frame); trees are enumerated by mixed-radix decoding of a running index over the families " +
-			"F1 (depth<=2, fan-out<=2, full product), F2 (depth-3 chains, full product), F3 (all 4-frame depth-3 shapes, every kind x outcome, one effect type per tree placed at all frames or at the leaves), " +
-			"F4 (thorough: 5-frame depth-3 shapes and the full binary depth-3 tree over a reduced alphabet); distinct by construction; non-trivial = at least one executed effect " +
+			"F1 (depth<=2, fan-out<=2, full product; quick: no root effect when there are two children), F2 (depth-3 chains, full product; quick: effect in the deepest frame only), " +
+			"F3 (all 4-frame depth-3 shapes, every kind x outcome, one effect type per tree placed at all frames or at the leaves; quick: one shape, reduced alphabet), " +
+			"F4 (thorough: 5-frame depth-3 shapes and the full binary depth-3 tree over reduced alphabets); distinct by construction; non-trivial = at least one executed effect " +
 			"lies inside a failed or static frame. part b: one case = one sequence of transactions; non-trivial = length >= 2",
 		Assumptions: []string{
 			"harness assembler, address derivation (crypto.CreateAddress/2) and the node boot fixture are trusted",
@@ -110,9 +111,10 @@ var (
 )
 
 type enumerator struct {
-	c   *fw.Ctx
-	idx int64
-	cut bool
+	c    *fw.Ctx
+	idx  int64
+	mine int64
+	cut  bool
 }
 
 func (e *enumerator) tree(build func() *Node) bool {
@@ -121,7 +123,8 @@ func (e *enumerator) tree(build func() *Node) bool {
 	if !e.c.Mine(i) {
 		return true
 	}
-	if i&63 == 0 && e.c.Expired() {
+	e.mine++
+	if e.mine&31 == 0 && e.c.Expired() {
 		e.cut = true
 		return false
 	}
@@ -208,36 +211,52 @@ func run(c *fw.Ctx) {
 			roots = append(roots, spec{kCall, o, e})
 		}
 	}
+	plainRoots := []spec{{kCall, oReturn, eNone}, {kCall, oRevert, eNone}, {kCall, oInvalid, eNone}, {kCall, oOOG, eNone}}
 	en := &enumerator{c: c}
 	nf := int64(len(full))
 
-	// F1: depth <= 2, fan-out <= 2, full product
+	// F1: depth <= 2, fan-out <= 2, full product (quick: with two children the root itself has no effect)
 	f1 := func() {
 		per := 1 + nf + nf*nf
-		for t := int64(0); t < int64(len(roots))*per; t++ {
-			tt := t
-			if !en.tree(func() *Node {
-				r := roots[tt/per]
-				x := tt % per
-				switch {
-				case x == 0:
-					return mk(r)
-				case x <= nf:
-					return mk(r, mk(full[x-1]))
-				default:
-					x -= 1 + nf
-					return mk(r, mk(full[x/nf]), mk(full[x%nf]))
+		rts := roots
+		for pass := 0; pass < 2; pass++ {
+			if !c.Thorough() {
+				if pass == 0 {
+					per = 1 + nf
+				} else {
+					per, rts = nf*nf, plainRoots
 				}
-			}) {
-				c.Cap("frame-trees: family F1 not finished (time)")
-				return
+			} else if pass == 1 {
+				break
+			}
+			for t := int64(0); t < int64(len(rts))*per; t++ {
+				tt, pp, quick2 := t, per, !c.Thorough() && pass == 1
+				if !en.tree(func() *Node {
+					r := rts[tt/pp]
+					x := tt % pp
+					if quick2 {
+						x += 1 + nf
+					}
+					switch {
+					case x == 0:
+						return mk(r)
+					case x <= nf:
+						return mk(r, mk(full[x-1]))
+					default:
+						x -= 1 + nf
+						return mk(r, mk(full[x/nf]), mk(full[x%nf]))
+					}
+				}) {
+					c.Cap("frame-trees: family F1 not finished (time)")
+					return
+				}
 			}
 		}
 		c.Count("family_F1_complete", 1)
 	}
 	// F2: depth-3 chains; quick: effect only in the deepest frame, thorough: full product
 	f2 := func() {
-		mid, rts := ko, []spec{{kCall, oReturn, eNone}, {kCall, oRevert, eNone}, {kCall, oInvalid, eNone}, {kCall, oOOG, eNone}}
+		mid, rts := ko, plainRoots
 		if c.Thorough() {
 			mid, rts = full, roots
 		}
@@ -266,10 +285,10 @@ func run(c *fw.Ctx) {
 		}
 		red := nonRootSpecs([]int{kCall, kCallCode, kDelegate, kStatic, kCreate}, []int{oReturn, oRevert, oInvalid, oDepOOG}, []int{eNone})
 		for i, sh := range shapes5 {
-			en.products(fmt.Sprintf("F4.%d", i), sh, red, []int{oReturn, oRevert}, allE)
+			en.products(fmt.Sprintf("F4.%d", i), sh, red, []int{oReturn, oRevert}, []int{eSstore, eLog, eValue, eTstore})
 		}
 		red7 := nonRootSpecs([]int{kCall, kDelegate, kStatic, kCreate}, []int{oReturn, oRevert}, []int{eNone})
-		en.products("F4.full-binary", shape7, red7, []int{oReturn, oRevert}, []int{eSstore, eLog, eTstore})
+		en.products("F4.full-binary", shape7, red7, []int{oReturn, oRevert}, []int{eSstore, eLog})
 	} else {
 		f1()
 		f2()
